@@ -519,6 +519,8 @@ class Bf3File:
                 yield cmd, params
             elif line.startswith("##"):
                 name, value = line[2:].split(":")
+                if name == "load":
+                    raise ValueError("reserved header name")
                 yield name, value.strip()
 
     @classmethod
